@@ -15,6 +15,10 @@ oracle : independent of Lean — the same call recipe / generated program built 
          and (before execution) exception type, same values.
          Tight sweep: with allowed−reserved fixed at exactly what the plan needs (and one byte less), every storage /
          compressor / executor / reserved-shift variant gives the same decision.
+         Reserved-share sweep: expressions that rechunk arrays several times larger than the memory left for data
+         (fixed corpus + seeded sizes + generated programs): at the smallest sufficient headroom h (and 1.5h, 3h) the
+         decision of (allowed=h, reserved=0) equals that of (allowed=h+r, reserved=r), r in {h/4, h, 4h}, explicit Spec and
+         global config; some accepted pairs are executed and their values compared.
 """
 from __future__ import annotations
 
@@ -248,9 +252,10 @@ def _execute(case):
     return case.get("family") != "planonly"
 
 
-def program_case(rng, families=None):
+def program_case(rng, families=None, max_elems=400):
     import exprgen
-    prog = exprgen.gen_program(rng, max_depth=rng.choice([2, 3, 4]), max_inputs=3, families=families, max_elems=400, max_blocks=24)
+    prog = exprgen.gen_program(rng, max_depth=rng.choice([2, 3, 4]), max_inputs=3, families=families, max_elems=max_elems,
+                               max_blocks=24 if max_elems <= 400 else 64)
     desc = prog.describe()
 
     def build(E, prog=prog):
@@ -264,11 +269,15 @@ def program_case(rng, families=None):
     return {"program": desc, "families": sorted(prog.families())}, build
 
 
-def sweep(ctx, cases, variants, sample=None, kind="sweep"):
+def sweep(ctx, cases, variants, sample=None, kind="sweep", deadline=None):
     """Run every case under the baseline and under the variants (all, or the explicit non-default one + `sample` others)."""
+    import time
     base_v = variants[0]
     others = variants[1:]
     for case, fn in cases:
+        if deadline is not None and time.time() > deadline:
+            ctx.notes.append("%s sweep stopped at its time limit" % kind)
+            return
         base = run_case(fn, base_v, execute=_execute(case))
         chosen = others
         if sample is not None and len(others) > sample + 1:
@@ -283,11 +292,15 @@ def sweep(ctx, cases, variants, sample=None, kind="sweep"):
                     rerun=lambda v=v: (run_case(fn, base_v, execute=_execute(case)), run_case(fn, v, execute=_execute(case))))
 
 
-def tight_sweep(ctx, cases, tmp, sample=None):
+def tight_sweep(ctx, cases, tmp, sample=None, deadline=None):
     """Same headroom everywhere: the decision (and the values) must not depend on storage / compressor / executor /
     a joint shift of allowed and reserved memory.  Headroom = exactly what the baseline plan needs, and one byte less."""
+    import time
     generous = make_variants(tmp)
     for case, fn in cases:
+        if deadline is not None and time.time() > deadline:
+            ctx.notes.append("tight sweep stopped at its time limit")
+            return
         info = run_case(fn, generous[1], want_plan=True)  # explicit Spec, local work_dir
         if info["phase"] != "ok" or not info.get("need"):
             continue
@@ -308,6 +321,116 @@ def tight_sweep(ctx, cases, tmp, sample=None):
                 # allowed memory that sufficed under the generous configuration: monotonicity says a plan-phase refusal at
                 # exactly the needed headroom can only come from a plan that changed with the headroom (rechunk, qr)
                 ctx.dist["tight:plan-changed-with-headroom"] += 1
+
+
+# ----------------------------------------------------------------------------------------------
+# same headroom, different reserved share (arrays larger than the per-task budget)
+# ----------------------------------------------------------------------------------------------
+
+def _big_transpose(n, c):
+    def build(E):
+        an = E.np.arange(n * n, dtype="float64").reshape(n, n)
+        a = E.cubed.from_array(an, chunks=(n, c), **E.kw)
+        b = a.rechunk((c, n))
+        return [b, E.xp.sum(E.xp.add(b, 1.0), axis=0)]
+    return build
+
+
+def _big_mixed_add(n, c):
+    def build(E):
+        an = E.np.arange(n * n, dtype="float64").reshape(n, n)
+        a = E.arr(an, (n, c))
+        b = E.arr(an.T * 0.5, (c, n))
+        return [E.xp.max(E.xp.add(a, b), axis=1)]      # operands chunked across each other: internal rechunk
+    return build
+
+
+def _big_1d(n, c1, c2):
+    def build(E):
+        a = E.arr(E.np.arange(n, dtype="int64"), (c1,))
+        return [E.xp.sum(E.cubed.rechunk(a, (c2,)) * 2)]
+    return build
+
+
+def big_corpus(rng, tier):
+    """Expressions with a rechunk (explicit or internal) of an array several times larger than the memory left for data,
+    so that the rechunk planner sizes its copy chunks at its limit (multi-stage plans).  The first entry is fixed
+    (transposing rechunk of an 8 MB array, then add and sum(axis=0)); the others vary with the seed."""
+    n = rng.randrange(300, 420, 4)
+    c = rng.choice([4, 6, 8, 10])
+    out = [
+        ({"corpus": "rechunk_transpose_add_sum", "n": 1000, "chunk": 10}, _big_transpose(1000, 10)),
+        ({"corpus": "rechunk_transpose_add_sum", "n": n, "chunk": c}, _big_transpose(n, c)),
+        ({"corpus": "add_of_cross_chunked", "n": n, "chunk": c}, _big_mixed_add(n, c)),
+    ]
+    m = rng.randrange(150_000, 300_000, 1000)
+    out.append(({"corpus": "rechunk_1d", "n": m, "chunks": [1000, 70_000]}, _big_1d(m, 1000, 70_000)))
+    if tier != "quick":
+        for _ in range(4):
+            case, fn = program_case(rng, families=["rechunk", "binary", "reduce", "permute_dims", "concat", "reshape"], max_elems=200_000)
+            out.append((case, fn))
+    return out
+
+
+def corpus_fn(case):
+    if case["corpus"] == "rechunk_transpose_add_sum":
+        return _big_transpose(case["n"], case["chunk"])
+    if case["corpus"] == "add_of_cross_chunked":
+        return _big_mixed_add(case["n"], case["chunk"])
+    return _big_1d(case["n"], *case["chunks"])
+
+
+def share_variant(tmp, h, r, via):
+    import cubed
+    if via == "config":
+        return Variant("config(allowed=%d,reserved=%d)" % (h + r, r),
+                       config={"spec.work_dir": os.path.join(tmp, "share-cfg"), "spec.allowed_mem": h + r, "spec.reserved_mem": r})
+    return Variant("Spec(allowed=%d,reserved=%d)" % (h + r, r),
+                   spec=cubed.Spec(work_dir=os.path.join(tmp, "share"), allowed_mem=h + r, reserved_mem=r))
+
+
+def reserved_share_sweep(ctx, cases, tmp, deadline=None, execute_budget=2):
+    """Theorem (c): admission depends on the spec only through allowed − reserved.  For each case find (on a ladder) the
+    smallest headroom h that (allowed=h, reserved=0) accepts; then for h, 1.5h, 3h compare the decision of
+    (allowed=h, reserved=0) with (allowed=h+r, reserved=r), r in {h/4, h, 4h}, as explicit Spec and as global config.
+    Decisions are taken up to plan validation; a few accepted pairs are also executed and their values compared."""
+    import time
+    executed = 0
+    for case, fn in cases:
+        if deadline is not None and time.time() > deadline:
+            ctx.notes.append("reserved-share sweep stopped at its time limit")
+            return
+        hmin = None
+        h = 60_000
+        while h < 80_000_000:
+            o = run_case(fn, share_variant(tmp, h, 0, "spec"), execute=False)
+            if o["phase"] == "ok":
+                hmin = h
+                break
+            h = h * 3 // 2
+        if hmin is None:
+            continue
+        label = case.get("corpus") or "program"
+        for mult in (2, 3, 6):               # h, 1.5 h, 3 h
+            h = hmin * mult // 2
+            base_v = share_variant(tmp, h, 0, "spec")
+            base = run_case(fn, base_v, execute=False)
+            for r in (h // 4, h, 4 * h):
+                for via in ("spec", "config"):
+                    v = share_variant(tmp, h, r, via)
+                    got = run_case(fn, v, execute=False)
+                    c = dict(case, headroom=h, reserved=r, via=via, baseline="Spec(allowed=%d, reserved=0)" % h)
+                    ctx.count({"case": label, "n": case.get("n"), "headroom": h, "reserved": r, "via": via},
+                              nontrivial=True, kind="share:%s:%s" % (via, base["phase"]))
+                    ok = compare(ctx, c, base, got, v.name)
+                    if ok and base["phase"] == "ok" and executed < execute_budget and r == h and via == "spec" and mult == 2 \
+                            and case.get("n", 0) != 1000:
+                        executed += 1
+                        b2, g2 = run_case(fn, base_v), run_case(fn, v)
+                        ctx.count({"case": label, "headroom": h, "reserved": r, "executed": True}, nontrivial=True, kind="share:executed")
+                        compare(ctx, c, b2, g2, v.name)
+            if any(not f["key"] for f in ctx.failures):
+                return
 
 
 # ----------------------------------------------------------------------------------------------
@@ -636,38 +759,57 @@ def oracle(ctx, n_programs=None, sample="auto"):
         if ctx.tier == "quick":
             tight = ctx.rng.sample(tight, 3)
         tight += [program_case(ctx.rng) for _ in range(ctx.budget(2, 10))]
+        if ctx.tier != "quick":
+            tight.append(({"corpus": "rechunk_transpose_add_sum", "n": 360, "chunk": 8}, _big_transpose(360, 8)))
         tight_sweep(ctx, tight, tmp, sample=4 if ctx.tier == "quick" else None)
         tm["oracle_tight"] = round(time.time() - t0, 1)
+        t0 = time.time()
+        reserved_share_sweep(ctx, big_corpus(ctx.rng, ctx.tier), tmp, execute_budget=ctx.budget(1, 4))
+        tm["oracle_reserved_share"] = round(time.time() - t0, 1)
     finally:
         shutil.rmtree(tmp, ignore_errors=True)
 
 
 def search(ctx):
     """A proof obligation or a correspondence relation no longer checks: look for an expression whose acceptance or value
-    depends on the configuration.  Functions that enclose a suspicious site are called first (their recipes), then a
-    deeper seeded sweep with all variants."""
+    depends on the configuration.  Time-boxed (quick: 3 min, thorough: 10 min).  Order: the reserved-share sweep on the
+    large-array corpus (cheap, decisions only); recipes of functions that enclose a suspicious site; the tight sweep; then
+    seeded recipes / programs under all variants until the time is up."""
+    import time
+
     import exprgen
     ctx.rng.seed(ctx.seed + 7919)
+    deadline = time.time() + ctx.budget(180, 600)
     tmp = tempfile.mkdtemp(prefix="c19-search-")
+
+    def found():
+        return any(not f["key"] for f in ctx.failures)
     try:
         bad = static_suspects(ctx)
+        reserved_share_sweep(ctx, big_corpus(ctx.rng, "thorough"), tmp, deadline=deadline, execute_budget=2)
+        if found():
+            return
         variants = make_variants(tmp)
-        from c19_recipes import RECIPES
+        from c19_recipes import RECIPES, by_name
         suspects = {s["function"].split(".")[-1] for s in bad}
         first = [({"recipe": n, "family": f, "suspect_site": sorted(suspects)}, fn) for n, f, fn, cov in RECIPES
                  if suspects & set(cov) or any(x in n for x in suspects)]
-        sweep(ctx, first, variants, sample=None, kind="search-suspect")
-        if any(not f["key"] for f in ctx.failures):
+        sweep(ctx, first, variants, sample=None, kind="search-suspect", deadline=deadline)
+        if found():
             return
         fams = [f for f in exprgen.FAMILIES if any(x in f for x in suspects)] or None
         if fams:
-            sweep(ctx, [program_case(ctx.rng, families=fams + ["binary"]) for _ in range(20)], variants, sample=None, kind="search-family")
-        sweep(ctx, recipe_cases(), variants, sample=None, kind="search-recipe")
-        if any(not f["key"] for f in ctx.failures):
+            sweep(ctx, [program_case(ctx.rng, families=fams + ["binary"]) for _ in range(20)], variants, sample=None,
+                  kind="search-family", deadline=deadline)
+            if found():
+                return
+        tight_sweep(ctx, [({"recipe": r}, by_name(r)[2]) for r in TIGHT_RECIPES], tmp, sample=4, deadline=deadline)
+        if found():
             return
-        sweep(ctx, [program_case(ctx.rng) for _ in range(ctx.budget(40, 80))], variants, sample=None, kind="search-program")
-        from c19_recipes import by_name
-        tight_sweep(ctx, [({"recipe": r}, by_name(r)[2]) for r in TIGHT_RECIPES], tmp)
+        sweep(ctx, recipe_cases(), variants, sample=3, kind="search-recipe", deadline=deadline)
+        if found():
+            return
+        sweep(ctx, [program_case(ctx.rng) for _ in range(ctx.budget(40, 80))], variants, sample=3, kind="search-program", deadline=deadline)
     finally:
         shutil.rmtree(tmp, ignore_errors=True)
 
@@ -677,11 +819,29 @@ def replay(ctx, body):
     case = body.get("case", {})
     tmp = tempfile.mkdtemp(prefix="c19-replay-")
     try:
+        if "via" in case:   # reserved-share sweep
+            fn = corpus_fn(case) if "corpus" in case else None
+            if fn is None:
+                import exprgen
+                prog = exprgen.Program.from_description(case["program"])
+
+                def fn(E, prog=prog):
+                    import numpy as np
+                    vals = [E.arr(np.asarray(a), tuple(i["chunks"])) for a, i in zip(prog.input_arrays(), prog.inputs)]
+                    for o in prog.ops:
+                        vals.append(exprgen._apply(o["op"], E.xp, False, [vals[j] for j in o["in"]], o["params"]))
+                    return [vals[j] for j in prog.outputs]
+            for v in (share_variant(tmp, case["headroom"], 0, "spec"), share_variant(tmp, case["headroom"], case["reserved"], case["via"])):
+                o = run_case(fn, v, execute=False)
+                print("replay %-46s -> %s" % (v.name, _show(o) if o["phase"] != "ok" else "accepted"))
+            return
         if "headroom" in case:
             variants = make_variants(tmp, headroom=case["headroom"], reserved=case.get("reserved", 1_000_000))
         else:
             variants = make_variants(tmp)
-        if "recipe" in case:
+        if "corpus" in case:
+            fn = corpus_fn(case)
+        elif "recipe" in case:
             from c19_recipes import by_name
             fn = by_name(case["recipe"])[2]
         else:
